@@ -172,7 +172,7 @@ MUTATORS = {
     'charset': [('cssText=', _set('cssText'), CHARSET_TEXTS), ('encoding=', _set('encoding'), ENCODINGS)],
     'import': [('cssText=', _set('cssText'), IMPORT_TEXTS), ('href=', _set('href'), ['y.css', '', None]), ('media=', _set('media'), MEDIA_TEXTS), ('name=', _set('name'), ['n', '', None, 3])],
     'import.media': [('mediaText=', _set('mediaText'), MEDIA_TEXTS), ('appendMedium', lambda o, m: o.appendMedium(m), MEDIA_TEXTS), ('deleteMedium', lambda o, m: o.deleteMedium(m), ['print', 'tv', '3d', ''])],
-    'namespace': [('cssText=', _set('cssText'), NAMESPACE_TEXTS), ('prefix=', _set('prefix'), ['q', '', '$$', 'p q', None]), ('namespaceURI=', _set('namespaceURI'), ['u', 'v', '', None])],
+    'namespace': [('cssText=', _set('cssText'), NAMESPACE_TEXTS), ('prefix=', _set('prefix'), ['q', 'p', '', '$$', 'p q', None]), ('namespaceURI=', _set('namespaceURI'), ['u', 'v', '', None])],
     'comment': [('cssText=', _set('cssText'), COMMENT_TEXTS)],
     'style': [('cssText=', _set('cssText'), STYLE_RULE_TEXTS), ('selectorText=', _set('selectorText'), SELECTOR_TEXTS), ('style=', _set('style'), DECL_TEXTS)],
     'style.selectorList': [('selectorText=', _set('selectorText'), SELECTOR_TEXTS), ('appendSelector', lambda o, t: o.appendSelector(t), SELECTOR_TEXTS),
